@@ -272,7 +272,9 @@ func addConflict(out *[]Conflict, seen map[string]bool, a RouteEntry, b RouteEnt
 		aPath, bPath = bPath, aPath
 		a, b = b, a
 	}
-	key := aPath + "||" + bPath + "||" + reason
+	// The key identifies the two entries themselves (verb, path and originating receiver), not just their paths:
+	// same-path routes under different verbs or in different methods are separate conflicts
+	key := fmt.Sprintf("%s %s||%s %s||%s||%p||%p", a.Method, aPath, b.Method, bPath, reason, a.Meta.Receiver, b.Meta.Receiver)
 	if seen[key] {
 		return
 	}
